@@ -7,23 +7,7 @@
 
 static std::string lc(std::string s) { for (auto &c : s) c = (char)tolower((unsigned char)c); return s; }
 
-// independent matcher for "is this name tunnel traffic" (plain and "*."-wildcard server domains)
-static bool under_tunnel_domain(const std::string &qname, const std::string &srv_domain)
-{
-	std::string q = lc(qname), d = lc(srv_domain);
-	bool wild = d.size() > 2 && d[0] == '*' && d[1] == '.';
-	std::string tail = wild ? d.substr(1) : d;        // ".x.y" or "x.y"
-	if (!wild) {
-		if (q == tail) return true;
-		return q.size() > tail.size() && q.compare(q.size() - tail.size(), tail.size(), tail) == 0 && q[q.size() - tail.size() - 1] == '.';
-	}
-	// wildcard: <anything.>LABEL.x.y with LABEL a non-empty star-free label
-	if (q.size() <= tail.size() || q.compare(q.size() - tail.size(), tail.size(), tail) != 0) return false;
-	std::string head = q.substr(0, q.size() - tail.size());
-	size_t dot = head.rfind('.');
-	std::string label = dot == std::string::npos ? head : head.substr(dot + 1);
-	return !label.empty() && label.find('*') == std::string::npos;
-}
+static bool under_tunnel_domain(const std::string &qname, const std::string &srv_domain) { size_t n; return tunnel_domain_match(qname, srv_domain, n); }
 
 struct ForwardWorld {
 	World *w;
@@ -188,6 +172,16 @@ J gen_forward(uint64_t seed, const J &ov)
 		op.set("id", ids[r.range(0, (int)ids.size() - 1)]);
 		op.set("qtype", types[r.range(0, 11)]);
 		if (r.chance(0.12)) {
+			// NS queries for names under the domain and A queries for ns./www. (answered by iodined itself, C10)
+			std::string d2 = dom; for (auto &c : d2) if (r.chance(0.3)) c = (char)toupper((unsigned char)c);
+			switch (r.range(0, 4)) {
+			case 0: op.set("name", d2); op.set("qtype", 2); break;
+			case 1: op.set("name", std::string("sub") + std::to_string(i) + "." + d2); op.set("qtype", 2); break;
+			case 2: op.set("name", std::string(r.chance(0.5) ? "ns." : "NS.") + d2); op.set("qtype", 1); break;
+			case 3: op.set("name", std::string(r.chance(0.5) ? "www." : "wWw.") + d2); op.set("qtype", 1); break;
+			default: op.set("name", std::string("a.b.c.") + d2); op.set("qtype", 2); break;
+			}
+		} else if (r.chance(0.12)) {
 			// a name under the tunnel domain (must not be forwarded): garbage data part, case variants of the domain
 			std::string d2 = dom; for (auto &c : d2) if (r.chance(0.5)) c = (char)toupper((unsigned char)c);
 			op.set("name", std::string(r.chance(0.5) ? "zz" : "www2") + "q" + std::to_string(i) + "." + d2);
